@@ -928,9 +928,13 @@ def replay(rep):
         acc = converse_c05.matrix_worker([tuple(r['case'])])
         print(json.dumps(acc.violations, indent=1, default=repr))
         return 1 if acc.violations else 0
-    if r.get('kind') == 'converse':
+    if r.get('kind') in ('converse', 'identity'):
         import converse_c05
-        acc = converse_c05.run(only=r['name'])
+        if r['kind'] == 'identity':
+            c = r['case']
+            acc = converse_c05.identity_worker([(tuple(tuple(a) for a in c[0]), tuple(c[1]), tuple(c[2]))])
+        else:
+            acc = converse_c05.run(only=r['name'])
         print(json.dumps(acc.violations, indent=1, default=repr))
         return 1 if acc.violations else 0
     ch = core.Chooser(r['choices'])
